@@ -9,6 +9,7 @@ import PygModel.PerDict
 import PygProofs.Lemmas.PerDictLemmas
 import PygProofs.Lemmas.PerDictJoin
 import PygProofs.Lemmas.PerDictTotal
+import PygProofs.Lemmas.PerDictRename
 import PygProofs.Props.C02
 
 namespace Pyg.Props.C20
@@ -637,6 +638,92 @@ theorem perdictable_returns (f : List Cell → Val) (params on : List String)
     have hk := select_ok ds on (fun k hk => (hs.cols k).2 (.inl hk))
     exact ⟨_, table_result f params on defaults inputs expiry today ds _ hj hn ht hon hk⟩
 
+/-! ## renames -/
+
+/-- **the renaming assignment** of `_item` (`renames` a dict parameter → column): `d[key] =
+d[renames[key]]` leaves a rectangular table with the same rows and the same cells in every other
+column; when `key` is renamed to `r`, column `r` must exist (else KeyError) and column `key` becomes a
+copy of it — so that `_item` then selects it (`rename_value`) -/
+theorem rename_spec (d d' : Table) (key : String) (renames : List (String × String)) (hd : d.WF)
+    (h : applyRename d key renames = .ok d') :
+    d'.WF ∧ d'.nrows = d.nrows ∧ (∀ c, c ∈ d'.cols ↔ c ∈ d.cols ∨ (c = key ∧ c ∈ d'.cols)) ∧
+    (d.cols.Nodup → d'.cols.Nodup) ∧
+    (∀ c, c ≠ key → ∀ i, d'.jcellAt c i = d.jcellAt c i) ∧
+    (∀ kr, renames.find? (·.1 == key) = some kr →
+      kr.2 ∈ d.cols ∧ key ∈ d'.cols ∧ ∀ i, d'.jcellAt key i = d.jcellAt kr.2 i) ∧
+    (renames.find? (·.1 == key) = none → d' = d) :=
+  applyRename_sem d d' key renames hd h
+
+/-- a renamed parameter takes its values from the column it is renamed to -/
+theorem rename_value (d d' : Table) (key : String) (on : List String)
+    (renames : List (String × String)) (kr : String × String) (hd : d.WF)
+    (h : applyRename d key renames = .ok d') (hkr : renames.find? (·.1 == key) = some kr) :
+    valueCol d' key on = key ∧ ∀ i, (inputRows on key d').row i key = d.jcellAt kr.2 i := by
+  obtain ⟨_, _, _, _, _, h6, _⟩ := applyRename_sem d d' key renames hd h
+  obtain ⟨_, hk, hv⟩ := h6 kr hkr
+  have : valueCol d' key on = key := by simp [valueCol, hk]
+  exact ⟨this, fun i => by simp [inputRows, this, hv i]⟩
+
+/-- **`join` with `renames`**: `join(inputs, on, renames, defaults)` is `join` of the inputs after
+the renaming assignments (`rename_spec`), hence satisfies `JoinSpec` (`join_keys`) for them -/
+theorem join_keys_renames (inputs : List (String × PInput)) (on : List String)
+    (renames : List (String × String)) (defaults : List (String × Cell)) (ds : Table)
+    (hon : on ≠ []) (hnames : (inputs.map (·.1)).Nodup) (hoff : ∀ kv ∈ inputs, kv.1 ∉ on)
+    (htab : ∀ kv ∈ tableInputs inputs, kv.2.WF ∧ ∀ c ∈ on, c ∈ kv.2.cols)
+    (hany : tableInputs inputs ≠ [])
+    (h : pdJoinR inputs on renames defaults = some (.ok ds)) :
+    (∀ a ∈ tableInputs inputs, applyRename a.2 a.1 renames = .ok (renamedT a.2 a.1 renames)) ∧
+    pdJoin (inputs.map (renamedIn renames)) on defaults = some (.ok ds) ∧
+    JoinSpec (inputs.map (renamedIn renames)) on defaults ds := by
+  simp only [pdJoinR] at h
+  split at h
+  · cases h
+  · rename_i inputs' hm
+    obtain ⟨rfl, i2⟩ := mapM_rename_sem renames inputs inputs' hm
+    refine ⟨i2, h, join_keys _ on defaults ds hon ?_ ?_ ?_ ?_ h⟩
+    · simpa [List.map_map, Function.comp_def, renamedIn_fst] using hnames
+    · intro kv hkv
+      obtain ⟨a, ha, rfl⟩ := List.mem_map.1 hkv
+      rw [renamedIn_fst]; exact hoff a ha
+    · intro kv hkv
+      rw [tableInputs_renamed] at hkv
+      obtain ⟨a, ha, rfl⟩ := List.mem_map.1 hkv
+      obtain ⟨h1, _, h3, _⟩ := applyRename_sem a.2 _ a.1 renames (htab a ha).1 (i2 a ha)
+      exact ⟨h1, fun c hc => (h3 c).2 (.inl ((htab a ha).2 c hc))⟩
+    · rw [tableInputs_renamed]
+      cases hT : tableInputs inputs with
+      | nil => exact absurd hT hany
+      | cons a as => simp
+
+/-- **the lifted call with `renames`** is the lifted call on the inputs (and `expiry`) after the
+renaming assignments — to which `perdictable_end_to_end` applies -/
+theorem perdictable_renames (f : List Cell → Val) (params on : List String)
+    (renames : List (String × String)) (defaults : List (String × Cell))
+    (inputs : List (String × PInput)) (expiry : PInput) (today : Int)
+    (res : PResult × List (List Cell))
+    (h : perdictableR f params on renames defaults inputs expiry today = some (.ok res)) :
+    (∀ a ∈ tableInputs (inputs ++ [("expiry", expiry)]),
+      applyRename a.2 a.1 renames = .ok (renamedT a.2 a.1 renames)) ∧
+    perdictable f params on defaults (inputs.map (renamedIn renames))
+      (renamedIn renames ("expiry", expiry)).2 today = some (.ok res) := by
+  simp only [perdictableR] at h
+  split at h
+  · rename_i inputs' e' hm he
+    obtain ⟨rfl, i2⟩ := mapM_rename_sem renames inputs inputs' hm
+    have hm2 : [("expiry", expiry)].mapM (renameInput renames) = .ok [e'] := by
+      simp [List.mapM_cons, he, bind, Except.bind, pure, Except.pure]
+    obtain ⟨j1, j2⟩ := mapM_rename_sem renames _ _ hm2
+    have he' : e' = renamedIn renames ("expiry", expiry) := by simpa using j1
+    refine ⟨?_, by rw [← he']; exact h⟩
+    intro a ha
+    have : a ∈ tableInputs inputs ∨ a ∈ tableInputs [("expiry", expiry)] := by
+      simpa [tableInputs, List.filterMap_append] using ha
+    rcases this with h1 | h1
+    · exact i2 a h1
+    · exact j2 a h1
+  · cases h
+  · cases h
+
 /-! ## non-vacuity and evaluation tests -/
 
 def fEx (args : List Cell) : Val := .tuple (args.map .cell)
@@ -692,6 +779,12 @@ example : let inputs : List (String × PInput) := [("a", .table tA), ("b", .tabl
 -- all table inputs with defaults: the union of the keys
 #guard (match pdJoin [("a", .table tA), ("b", .table tB)] ["k"] [("a", .none), ("b", .int 0)] with
   | some (.ok t) => t.col? "k" == some [.int 1, .int 2, .int 3, .int 4]
+  | _ => false)
+
+-- renames: parameter `a` takes the column `alt` of a table with two value columns
+#guard (match pdJoinR [("a", .table (tA ++ [("alt", [.int 33, .int 11, .int 22])])), ("b", .table tB)] ["k"]
+    [("a", "alt")] [] with
+  | some (.ok t) => t.col? "k" == some [.int 2, .int 3] && t.col? "a" == some [.int 22, .int 33]
   | _ => false)
 
 /-- the hypotheses of `join_keys_inner` are satisfiable: two inputs keyed by `k` -/
